@@ -94,6 +94,33 @@ def _kagome(u, v):
     return ["Mn", "Mn", "Mn"], [[0.5, 0, 0], [0, 0.5, 0], [0.5, 0.5, 0]]
 
 
+# --- non-primitive cells: the space group contains pure fractional translations (next to every {g|t} also {g|t+c})
+
+
+def _bcc_conv(u, v):
+    return ["X", "X"], [[0, 0, 0], [0.5, 0.5, 0.5]]
+
+
+def _fcc_conv(u, v):
+    return ["X"] * 4, [[0, 0, 0], [0, 0.5, 0.5], [0.5, 0, 0.5], [0.5, 0.5, 0]]
+
+
+def _super_x(u, v):   # 2x1x1 supercell of a one-atom cell
+    return ["X", "X"], [[0, 0, 0], [0.5, 0, 0]]
+
+
+def _super_z(u, v):   # 1x1x2 supercell of a one-atom cell
+    return ["X", "X"], [[0, 0, 0], [0, 0, 0.5]]
+
+
+def _cscl_super_x(u, v):   # 2x1x1 supercell of CsCl, the two species listed interleaved
+    return ["A", "B", "A", "B"], [[0, 0, 0], [0.25, 0.5, 0.5], [0.5, 0, 0], [0.75, 0.5, 0.5]]
+
+
+def _graphene_super_z(u, v):   # 1x1x2 supercell of (AA stacked) graphene
+    return ["C"] * 4, [[1 / 3, 2 / 3, 0], [2 / 3, 1 / 3, 0], [1 / 3, 2 / 3, 0.5], [2 / 3, 1 / 3, 0.5]]
+
+
 LIB = {
     "sc": dict(lat="sc", atoms=_one, proj=[["X:s"], ["X:p"], ["X:s", "X:p"], ["X:t2g"], ["X:eg"], ["X:sp3d2"], ["X:d"],
                                            ["X:s;p"], ["X:sp3"]],
@@ -140,6 +167,24 @@ LIB = {
                        mag={"fm_y": [[0, 1, 0], [0, 0, 0], [0, 0, 0]]}),
     "triclinic": dict(lat="triclinic", atoms=_pair_inv, proj=[["A:s", "B:s"], ["A:p", "B:s"], ["A:s", "B:p"], ["A:d", "B:s"]],
                       mag={}),
+    # non-primitive cells.  'super': the lattice is diag(super) @ (lattice of kind 'base'); 'lat' names the kind whose
+    # axis equivalences the cell still has.  Hybrids are offered only where the (smaller) group of the supercell
+    # keeps their span
+    "bcc_conv": dict(lat="sc", atoms=_bcc_conv, proj=[["X:s"], ["X:p"], ["X:t2g"], ["X:eg"], ["X:s", "X:p"], ["X:sp3d2"], ["X:s;p"]],
+                     mag={"fm_z": [[0, 0, 1]] * 2, "fm_111": [[S3, S3, S3]] * 2}),
+    "fcc_conv": dict(lat="sc", atoms=_fcc_conv, proj=[["X:s"], ["X:p"], ["X:t2g"], ["X:eg"]],
+                     mag={"fm_z": [[0, 0, 1]] * 4}),
+    "tetra_super": dict(lat="orthorhombic", base="tetragonal", super=[2, 1, 1], atoms=_super_x,
+                        proj=[["X:s"], ["X:p"], ["X:pz"], ["X:pxy"], ["X:s", "X:pz"], ["X:t2g"], ["X:d"], ["X:sp"]],
+                        mag={"fm_z": [[0, 0, 1]] * 2, "fm_x": [[1, 0, 0]] * 2, "afm_z": [[0, 0, 1], [0, 0, -1]]}),
+    "hex_super_z": dict(lat="hexagonal", base="hexagonal", super=[1, 1, 2], atoms=_super_z,
+                        proj=[["X:s"], ["X:p"], ["X:pz"], ["X:pxy"], ["X:s", "X:pz"], ["X:d"]],
+                        mag={"fm_z": [[0, 0, 1]] * 2, "afm_z": [[0, 0, 1], [0, 0, -1]]}),
+    "cscl_super": dict(lat="orthorhombic", base="sc", super=[2, 1, 1], atoms=_cscl_super_x,   # four-fold axis along x: p2 = (pz, py) is closed
+                       proj=[["A:s", "B:s"], ["A:p", "B:s"], ["A:s", "B:p"], ["A:p2", "B:s"]],
+                       mag={"fm_x": [[1, 0, 0], [0, 0, 0]] * 2}),
+    "graphene_super_z": dict(lat="hexagonal", base="hexagonal", super=[1, 1, 2], atoms=_graphene_super_z,
+                             proj=[["C:pz"], ["C:s"], ["C:sp2"], ["C:p"]], mag={}),
 }
 NAMES = sorted(LIB)
 
@@ -161,6 +206,7 @@ FAMILIES = {
     "cubic": ["sc", "cscl", "zincblende", "diamond", "fcc", "bcc", "afm_cscl"],
     "hexagonal": ["graphene", "graphene60", "hbn", "hex1", "kagome", "chain", "wurtzite", "rhombo"],
     "lowsym": ["tetragonal", "tetra_polar", "afm_tetra", "orthorhombic", "ortho_polar", "ortho_mixed", "monoclinic", "triclinic"],
+    "nonprim": ["bcc_conv", "fcc_conv", "tetra_super", "hex_super_z", "cscl_super", "graphene_super_z"],
 }
 
 
@@ -189,10 +235,13 @@ def nwann(name, ip, soc):
 def resolve(s):
     """-> dict(lat(dict for wbsys.lattice_matrix), L, names, positions, proj, soc, magmom)"""
     e = LIB[s["name"]]
-    lat = dict(kind=e["lat"], a=s["a"], b=s["b"], c=s["c"], o=list(s["o"]), rot=None)
+    lat = dict(kind=e.get("base", e["lat"]), a=s["a"], b=s["b"], c=s["c"], o=list(s["o"]), rot=None)
     names, pos = e["atoms"](s["u"], s["v"])
     mag = None if s["mag"] is None else [list(map(float, m)) for m in e["mag"][s["mag"]]]
-    return dict(lat=lat, L=wbsys.lattice_matrix(lat), names=list(names), positions=np.array(pos, dtype=float),
+    L = wbsys.lattice_matrix(lat)
+    if e.get("super") is not None:
+        L = np.diag(np.array(e["super"], dtype=float)) @ L
+    return dict(lat=lat, L=L, names=list(names), positions=np.array(pos, dtype=float),
                 proj=list(e["proj"][s["proj"]]), soc=bool(s["soc"]), magmom=mag)
 
 
